@@ -17,6 +17,11 @@ for d in sorted(glob.glob(os.path.join(V, "seeded", "*"))):
             parts.append("%s: %s" % (p, ("caught" + ("" if r.get("with_failing_input") else " (no-failing-input-found)")) if r.get("detected") else "MISSED"))
         res = "; ".join(parts)
     hist = m.get("history", "")
+    if not hist:
+        for p, r in m.get("checks_run", {}).items():
+            log = [x for x in m.get("run_log", []) if x["property"] == p]
+            if r.get("detected") and any(not x["detected"] for x in log):
+                hist = "first run MISSED; caught after the check was strengthened (verif %s)" % log[-1]["verif_commit"]
     rows.append("| %s | %s | %s | %s |" % (name, (m.get("description", "") or "").replace("|", "/").replace("\n", " ")[:260],
                                          (m.get("needs_to_manifest", "") or "").replace("|", "/").replace("\n", " ")[:200], res + ((" — " + hist) if hist else "")))
 print("| seed | change | needs, to manifest | result |\n|---|---|---|---|")
